@@ -1,10 +1,11 @@
 SPECIFICATION Spec
 CONSTANTS
+  Fault = "none"
   Cfgs <- TC_Cfgs
   Soc0s <- SocAll
   Dts <- Dt3
   Engs <- Bools
-  ClsOn <- ConvCls
+  ClsOn <- TC_On
   ClsOff <- ConvOff
   Depth = 3
 INVARIANT L1
